@@ -226,6 +226,14 @@ Definition splice (name : string) (embed : bool) (j : json) : list (string * jso
   | _, _ => [(name, j)]
   end.
 
+Fixpoint enc_fields (enc : ty -> val -> json) (fds : list field) (vs : list val) {struct vs} : list (string * json) :=
+  match vs, fds with
+  | x :: vs', fd :: fds' =>
+    if (f_skip fd || (f_omit fd && is_empty x))%bool then enc_fields enc fds' vs'
+    else (splice (f_json fd) (f_embed fd) (enc (f_ty fd) x) ++ enc_fields enc fds' vs')%list
+  | _, _ => []
+  end.
+
 Fixpoint encode (T : table) (fuel : nat) (t : ty) (v : val) {struct fuel} : json :=
   match fuel with
   | O => JFuel (vsecrets v)
@@ -253,16 +261,8 @@ Fixpoint encode (T : table) (fuel : nat) (t : ty) (v : val) {struct fuel} : json
       match find_struct T n with
       | None => JFuel (vsecrets v)
       | Some sd =>
-        let plain_fields :=
-          (fix go (fds : list field) (vs : list val) : list (string * json) :=
-             match fds, vs with
-             | fd :: fds', x :: vs' =>
-               if (f_skip fd || (f_omit fd && is_empty x))%bool then go fds' vs'
-               else (splice (f_json fd) (f_embed fd) (encode T fuel' (f_ty fd) x) ++ go fds' vs')%list
-             | _, _ => []
-             end) in
         match s_hook sd with
-        | HkNone => JObj (plain_fields (s_fields sd) vs)
+        | HkNone => JObj (enc_fields (encode T fuel') (s_fields sd) vs)
         | HkShadow pre tgt =>
           match vget T t (run_stmts T t v pre) tgt with
           | Some (t2, v2) => encode T fuel' t2 v2
